@@ -108,7 +108,9 @@ func (r *SearchNode) AddQueryInfoForNode() SearchNodeType {
 			nType = ColumnValueQuery
 		}
 	}
-	r.NodeType = nType
+	if r.NodeType != nType {
+		r.NodeType = nType
+	}
 	return nType
 }
 
@@ -134,13 +136,16 @@ func (c *SearchCondition) AddQueryInfo() SearchNodeType {
 }
 
 func (n *SearchQuery) GetQueryInfo() SearchNodeType {
-	var queryInfo *QueryInfo
-	if n.MatchFilter != nil {
-		queryInfo = n.MatchFilter.GetQueryInfo()
-	} else {
-		queryInfo = n.ExpressionFilter.GetQueryInfo()
+	// The query info is derived from the filter, which does not change once the node is built. A
+	// persistent query's node is read by the ingest path while searches call this again for every
+	// segment, so it must not be rewritten once it is set.
+	if n.QueryInfo == nil {
+		if n.MatchFilter != nil {
+			n.QueryInfo = n.MatchFilter.GetQueryInfo()
+		} else {
+			n.QueryInfo = n.ExpressionFilter.GetQueryInfo()
+		}
 	}
-	n.QueryInfo = queryInfo
 	return n.GetQueryType()
 }
 
